@@ -295,6 +295,51 @@ func typedUnits(which string) []engine.Unit {
 			}
 			return lex(a, b, ord[int])
 		}}, which)
+		nan := math.NaN()
+		fs := [][]float64{nil, {}, {1}, {nan}, {1, nan}, {nan, 1}, {math.Inf(1)}, {math.Copysign(0, -1)}, {0}, {1, 2}, {nan}, {1, nan}, {2.5, nan, nan}}
+		rankF := func(a, b float64) age.Rank {
+			an, bn := a != a, b != b
+			switch {
+			case an && bn:
+				return age.EqualRank
+			case an:
+				return age.LesserRank
+			case bn:
+				return age.GreaterRank
+			}
+			return ord(a, b)
+		}
+		nilFirst := func(an, bn bool) (age.Rank, bool) {
+			switch {
+			case an && bn:
+				return age.EqualRank, true
+			case an:
+				return age.LesserRank, true
+			case bn:
+				return age.GreaterRank, true
+			}
+			return age.EqualRank, false
+		}
+		laws(r, uni[[]float64]{name: "[]float64 (with NaN elements)", vals: fs, tag: func(v []float64) string {
+			for _, x := range v {
+				if x != x {
+					return "NaN element"
+				}
+			}
+			return ""
+		}, ref: func(a, b []float64) age.Rank {
+			if rk, ok := nilFirst(a == nil, b == nil); ok {
+				return rk
+			}
+			return lex(a, b, rankF)
+		}}, which)
+		var fl []col.ListLike[float64]
+		for _, e := range fs[1:] {
+			fl = append(fl, col.List[float64](common.N()).MakeFromArray(e))
+		}
+		laws(r, uni[col.ListLike[float64]]{name: "ListLike[float64] (with NaN elements)", vals: fl, ref: func(a, b col.ListLike[float64]) age.Rank { return lex(a.AsArray(), b.AsArray(), rankF) }}, which)
+		cs := [][]complex128{{}, {complex(1, 2)}, {complex(nan, 0)}, {complex(nan, 0)}, {complex(1, 2), complex(0, nan)}, {complex(1, 2), complex(0, nan)}}
+		laws(r, uni[[]complex128]{name: "[]complex128 (with NaN parts)", vals: cs}, which)
 		var ss [][]string
 		for _, a := range []string{"", "a", "b"} {
 			ss = append(ss, []string{a})
@@ -587,6 +632,43 @@ func cyclicValues() map[string]func() any {
 			c := col.Catalog[any, any](N()).Make()
 			c.SetValue("self", c)
 			return c
+		},
+		"catalog containing itself inside one list": func() any {
+			c := col.Catalog[any, any](N()).Make()
+			c.SetValue("self", c)
+			return col.List[any](N()).MakeFromArray([]any{c})
+		},
+		"catalog containing itself inside three lists": func() any {
+			c := col.Catalog[any, any](N()).Make()
+			c.SetValue("self", c)
+			var v any = c
+			for i := 0; i < 3; i++ {
+				v = col.List[any](N()).MakeFromArray([]any{v, int64(i)})
+			}
+			return v
+		},
+		"catalog whose value is a list containing the catalog": func() any {
+			c := col.Catalog[any, any](N()).Make()
+			l := col.List[any](N()).Make()
+			l.AppendValue(c)
+			c.SetValue("k", int64(1))
+			c.SetValue("loop", l)
+			return c
+		},
+		"map collection containing itself inside a list": func() any {
+			m := col.Map[any, any](N()).Make()
+			m.SetValue("self", m)
+			return col.List[any](N()).MakeFromArray([]any{int64(0), m})
+		},
+		"go map containing itself inside two slices": func() any {
+			m := map[string]any{}
+			m["self"] = m
+			return []any{[]any{m}}
+		},
+		"stack containing itself": func() any {
+			s := col.Stack[any](N()).Make()
+			s.AddValue(s)
+			return s
 		},
 		"go slice containing itself": func() any {
 			s := make([]any, 1)
